@@ -367,6 +367,9 @@ func renameTask(r *rand.Rand, doc *yaml.Node) (string, bool) {
 		if root.Content[i].Value == "tasks" && root.Content[i+1].Kind == yaml.MappingNode {
 			ts := root.Content[i+1]
 			name := C15Word(r, 1, 4)
+			if r.Intn(3) == 0 {
+				name = patternName(r)
+			}
 			if len(ts.Content) >= 2 && r.Intn(3) > 0 {
 				k := r.Intn(len(ts.Content)/2) * 2
 				ts.Content[k] = strScalar(name)
@@ -380,6 +383,141 @@ func renameTask(r *rand.Rand, doc *yaml.Node) (string, bool) {
 		}
 	}
 	return "", false
+}
+
+// patternName is a wildcard task name with literal text around its stars, e.g.
+// "a:*:b" (the text before and after a star may share a character).
+func patternName(r *rand.Rand) string {
+	lit := func(min, max int) string { return strings.ReplaceAll(C15Word(r, min, max), "*", "a") }
+	c := c15letters[r.Intn(len(c15letters))]
+	if c == "*" {
+		c = ":"
+	}
+	switch r.Intn(6) {
+	case 0, 1: // prefix and suffix meet in the same character
+		return lit(0, 2) + c + "*" + c + lit(0, 2)
+	case 2:
+		return lit(1, 3) + "*" + lit(1, 3)
+	case 3:
+		return lit(1, 2) + "*"
+	case 4:
+		return "*" + lit(1, 2)
+	default:
+		return lit(0, 2) + c + "*" + c + "*" + c + lit(0, 2)
+	}
+}
+
+// StarRequests derives requests from a task name that contains '*': the name
+// without its stars, with text before and after a star overlapping, each side
+// alone, the name itself, and the pattern instantiated with ”, 'x' and ':'.
+func StarRequests(name string) []string {
+	if !strings.Contains(name, "*") {
+		return nil
+	}
+	i, j := strings.Index(name, "*"), strings.LastIndex(name, "*")
+	prefix, suffix := name[:i], name[j+1:]
+	out := []string{prefix + suffix, prefix, suffix, name}
+	if len(suffix) > 0 {
+		out = append(out, prefix+suffix[1:])
+	}
+	if len(prefix) > 0 {
+		out = append(out, prefix[:len(prefix)-1]+suffix)
+	}
+	if len(prefix) > 0 && len(suffix) > 0 {
+		out = append(out, prefix[:len(prefix)-1]+suffix[1:])
+	}
+	for _, fill := range []string{"", "x", ":"} {
+		out = append(out, strings.ReplaceAll(name, "*", fill))
+	}
+	seen := map[string]bool{}
+	var uniq []string
+	for _, o := range out {
+		if !seen[o] {
+			seen[o] = true
+			uniq = append(uniq, o)
+		}
+	}
+	return uniq
+}
+
+// MutIncOpts adds an include with a combination of options to a multi-file input.
+const MutIncOpts = "include:options"
+
+// includeOptions adds an include of one of the auxiliary Taskfiles under a
+// namespace and with options that interact: excludes naming default / every
+// task / a task that does not exist, aliases clashing with task names, flatten,
+// internal, a file with only a default task, a namespace equal to a task name.
+// It returns requests worth asking for.
+func includeOptions(r *rand.Rand, doc *yaml.Node) (reqs []string, ok bool) {
+	root := doc.Content[0]
+	if root.Kind != yaml.MappingNode {
+		return nil, false
+	}
+	incs := mapGet(root, "includes")
+	if incs == nil || incs.Kind != yaml.MappingNode {
+		incs = &yaml.Node{Kind: yaml.MappingNode}
+		mapSet(root, "includes", incs)
+	}
+	var rootTasks []string
+	if ts := mapGet(root, "tasks"); ts != nil && ts.Kind == yaml.MappingNode {
+		for i := 0; i+1 < len(ts.Content); i += 2 {
+			if ts.Content[i].Kind == yaml.ScalarNode {
+				rootTasks = append(rootTasks, ts.Content[i].Value)
+			}
+		}
+	}
+	type auxFile struct {
+		path  string
+		tasks []string
+	}
+	f := []auxFile{
+		{"./inc.yml", []string{"default", "t", "skipme"}},
+		{"./onlydefault.yml", []string{"default"}},
+		{"./nodefault.yml", []string{"a", "b"}},
+		{"./dir", []string{"d"}},
+	}[r.Intn(4)]
+	ns := []string{"fzo", "fzo", "o", "default", "t", "a:b"}[r.Intn(6)]
+	if len(rootTasks) > 0 && r.Intn(3) == 0 {
+		ns = rootTasks[r.Intn(len(rootTasks))] // namespace equal to a task name of the parent
+	}
+	m := &yaml.Node{Kind: yaml.MappingNode, Content: []*yaml.Node{scalar("taskfile"), strScalar(f.path)}}
+	seq := func(items ...string) *yaml.Node {
+		n := &yaml.Node{Kind: yaml.SequenceNode, Style: yaml.FlowStyle}
+		for _, it := range items {
+			n.Content = append(n.Content, strScalar(it))
+		}
+		return n
+	}
+	switch r.Intn(8) {
+	case 0, 1, 2:
+		mapSet(m, "excludes", seq("default"))
+	case 3:
+		mapSet(m, "excludes", seq(f.tasks...)) // every task
+	case 4:
+		mapSet(m, "excludes", seq("nosuchtask", f.tasks[r.Intn(len(f.tasks))]))
+	case 5:
+		mapSet(m, "excludes", seq())
+	}
+	if r.Intn(3) == 0 {
+		mapSet(m, "flatten", scalar("true"))
+	}
+	if r.Intn(3) == 0 {
+		mapSet(m, "internal", scalar("true"))
+	}
+	if r.Intn(2) == 0 {
+		// aliases of the namespace that clash with task names / the namespace / each other
+		cands := append([]string{ns, "default", "t", "x", "fzo"}, rootTasks...)
+		mapSet(m, "aliases", seq(cands[r.Intn(len(cands))], cands[r.Intn(len(cands))]))
+	}
+	if r.Intn(4) == 0 {
+		mapSet(m, "optional", scalar("true"))
+	}
+	if r.Intn(4) == 0 {
+		mapSet(m, "vars", &yaml.Node{Kind: yaml.MappingNode, Content: []*yaml.Node{scalar("IV"), strScalar("opt")}})
+	}
+	incs.Content = append(incs.Content, strScalar(ns), m)
+	reqs = []string{ns, ns + ":default", ns + ":" + f.tasks[len(f.tasks)-1], "default", f.tasks[0]}
+	return reqs, true
 }
 
 // lexMutate applies one byte-level mutation.
